@@ -7,6 +7,7 @@ import FormakVerif.Model.Names
 import FormakVerif.Model.Expr
 import FormakVerif.Model.PyModel
 import FormakVerif.Model.Runtime
+import FormakVerif.Model.Ekf
 open Lean FormakVerif
 
 def parseRat (s : String) : Except String Rat :=
@@ -223,6 +224,127 @@ def opTicks (j : Json) : Except String Json := do
       st := st'; outs := outs.push (enc est)
     return okJ (Json.mkObj [("outs", Json.arr outs), ("held_time", floatBits st.currentTime), ("held", enc st.state)])
 
+/-! ### EKF ops -/
+
+def jSensor (j : Json) : Except String SensorDef := do
+  return { key := ← (← j.getObjVal? "key").getStr?, readings := ← jKw jExpr (← j.getObjVal? "readings") }
+
+def jEkfDef (j : Json) : Except String EkfDef := do
+  let filt ← match j.getObjVal? "filtering" with
+    | .ok .null => pure none
+    | .ok v => pure (some (← jRat v))
+    | .error _ => pure none
+  return { model := ← jModelDef (← j.getObjVal? "model"),
+           processNoise := ← jKw jRat (← j.getObjVal? "noise"),
+           sensors := ← jList jSensor (← j.getObjVal? "sensors"),
+           sensorNoise := ← jKw (jKw jRat) (← j.getObjVal? "sensor_noise"),
+           filtering := filt }
+
+def jMat (m n : Nat) (j : Json) : Except String (QMat m n) := do
+  let l ← jList (jList jRat) j
+  match QMat.ofLists m n l with
+  | some a => .ok a
+  | none => .error s!"matrix shape, expected {m}x{n}"
+
+def matJ {m n : Nat} (a : QMat m n) : Json :=
+  Json.arr (a.toLists.map fun r => Json.arr (r.map fun q => Json.str (ratStr q)).toArray).toArray
+
+def vecJ {n : Nat} (v : Fin n → Rat) : Json :=
+  Json.arr ((List.finRange n).map fun i => Json.str (ratStr (v i))).toArray
+
+def opt {β : Type} (msg : String) : Option β → Except String β
+  | some v => .ok v
+  | none => .error msg
+
+structure Point where
+  cal : List (String × Rat)
+  dt : Rat
+  state : List (String × Rat)
+  control : List (String × Rat)
+
+def jPoint (j : Json) : Except String Point := do
+  return { cal := ← jKw jRat (← j.getObjVal? "cal"), dt := ← jRat (← j.getObjVal? "dt"),
+           state := ← jKw jRat (← j.getObjVal? "state"), control := ← jKw jRat (← j.getObjVal? "control") }
+
+def processEnv (d : EkfDef) (p : Point) : Env Rat := byNameEnv 0 d.model p.cal p.dt p.state p.control
+def sensorEnv (d : EkfDef) (p : Point) : Env Rat :=
+  d.Ls.map (fun n => (n, (p.state.lookup n).getD 0)) ++ d.Lk.filterMap (fun n => (p.cal.lookup n).map fun v => (n, v))
+
+def stateVec (d : EkfDef) (p : Point) : Fin d.n → Rat := fun i => (p.state.lookup (d.Ls.getD i.val "")).getD 0
+
+def opJacobians (j : Json) : Except String Json := do
+  let d ← jEkfDef (← j.getObjVal? "ekf")
+  let p ← jPoint (← j.getObjVal? "point")
+  let env := processEnv d p
+  let G ← opt "undefined" (d.processJacobian env)
+  let V ← opt "undefined" (d.controlJacobian env)
+  let mut hs : List (String × Json) := []
+  for s in d.sensors do
+    let H ← opt "undefined" (d.sensorJacobian s (sensorEnv d p))
+    hs := hs ++ [(s.key, matJ H)]
+  return okJ (Json.mkObj [("G", matJ G), ("V", matJ V), ("H", Json.mkObj hs), ("M", matJ d.processNoiseMatrix),
+    ("Ls", Json.arr (d.Ls.map Json.str).toArray), ("Lc", Json.arr (d.Lc.map Json.str).toArray)])
+
+def doPredict (d : EkfDef) (p : Point) (P : QMat d.n d.n) : Except String (List Rat × QMat d.n d.n) := do
+  let env := processEnv d p
+  let G ← opt "undefined" (d.processJacobian env)
+  let V ← opt "undefined" (d.controlJacobian env)
+  let prog ← opt "update does not cover state" d.model.compilePlain
+  match pyRun ratSem 0 d.model prog p.cal p.dt p.state (some p.control) with
+  | .ok x' => return (x', predictCov G V d.processNoiseMatrix P)
+  | .error e => .error (runErrStr e)
+
+def opPredict (j : Json) : Except String Json := do
+  let d ← jEkfDef (← j.getObjVal? "ekf")
+  let p ← jPoint (← j.getObjVal? "point")
+  let P ← jMat d.n d.n (← j.getObjVal? "P")
+  let (x', P') ← doPredict d p P
+  return okJ (Json.mkObj [("state", namedOut (fun q => Json.str (ratStr q)) d.Ls x'), ("cov", matJ P')])
+
+def doUpdate (d : EkfDef) (s : SensorDef) (p : Point) (P : QMat d.n d.n) (z : List (String × Rat)) :
+    Except String (UpdateOut d.n s.Lr.length × Rat) := do
+  let env := sensorEnv d p
+  let H ← opt "undefined" (d.sensorJacobian s env)
+  let spec ← opt "sensor spec" s.spec
+  let hx ← opt "undefined" (EkfDef.evalAll env spec)
+  let Q := d.sensorNoiseMatrix s
+  let S := innovCov H P Q
+  let Si ← opt "singular" (gaussJordan _ S)
+  let zv : Fin s.Lr.length → Rat := fun i => (z.lookup (s.Lr.getD i.val "")).getD 0
+  let hxv : Fin s.Lr.length → Rat := fun i => hx.getD i.val 0
+  let out ← opt "inverse certificate rejected" (sensorUpdate d.filtering H P Q Si (stateVec d p) zv hxv)
+  return (out, nis out.innovation Si)
+
+def opUpdate (j : Json) : Except String Json := do
+  let d ← jEkfDef (← j.getObjVal? "ekf")
+  let p ← jPoint (← j.getObjVal? "point")
+  let P ← jMat d.n d.n (← j.getObjVal? "P")
+  let key ← (← j.getObjVal? "sensor").getStr?
+  let s ← opt "unknown sensor" (d.sensor key)
+  let z ← jKw jRat (← j.getObjVal? "z")
+  let (out, nisv) ← doUpdate d s p P z
+  return okJ (Json.mkObj [
+    ("state", Json.mkObj ((List.finRange d.n).map fun i => (d.Ls.getD i.val "", Json.str (ratStr (out.state i))))),
+    ("cov", matJ out.cov), ("innovation", vecJ out.innovation), ("S", matJ out.S),
+    ("rejected", out.rejected), ("nis", Json.str (ratStr nisv)), ("Lr", Json.arr (s.Lr.map Json.str).toArray)])
+
+/-- `threshold`: the decision on a given NIS (exact), in the three implementation shapes -/
+def opDecide (j : Json) : Except String Json := do
+  let nisv ← jRat (← j.getObjVal? "nis")
+  let m ← (← j.getObjVal? "m").getNat?
+  let filt ← match j.getObjVal? "k" with
+    | .ok .null => pure none
+    | .ok v => pure (some (← jRat v))
+    | .error _ => pure none
+  let fl ← match j.getObjVal? "nis_bits", j.getObjVal? "k_bits" with
+    | .ok nb, .ok .null => pure (Json.mkObj [("decision", discardF none (← jFloat nb) m)])
+    | .ok nb, .ok kb => do
+        let kf ← jFloat kb
+        pure (Json.mkObj [("decision", discardF (some kf) (← jFloat nb) m), ("threshold", floatBits (thresholdF kf m))])
+    | _, _ => pure Json.null
+  return okJ (Json.mkObj [("python", discard filt nisv m), ("cpp", discardCpp (filt.getD 0) nisv m),
+    ("helper", match filt with | some k => exceeds nisv k m | none => false), ("float", fl)])
+
 def dispatch (j : Json) : Except String Json := do
   let op ← (← j.getObjVal? "op").getStr?
   match op with
@@ -233,6 +355,10 @@ def dispatch (j : Json) : Except String Json := do
   | "fromdata" => opFromData j
   | "plan" => opPlan j
   | "ticks" => opTicks j
+  | "jacobians" => opJacobians j
+  | "predict" => opPredict j
+  | "update" => opUpdate j
+  | "decide" => opDecide j
   | "ping" => return okJ (Json.str "pong")
   | o => .error s!"unknown op {o}"
 
